@@ -518,6 +518,13 @@ def rule_r8(chk, rid="C07-R8"):
     for ncols, base, fstart, simend, shocks in ((10, (1, 8), 1, 8, {5}), (10, (1, 8), 4, 8, {7}), (10, (1, 8), 4, 8, {5, 6}), (12, (2, 9), 5, 9, {9}),
                                                  (10, (1, 8), 3, 8, {1, 2}), (10, (1, 8), 6, 8, {6})):
         cases.append((ncols, base, fstart, simend, shocks))
+    if chk.tier == "thorough":
+        import itertools
+        for fstart in range(1, 8):
+            for simend in range(fstart, 9):
+                for k in (1, 2):
+                    for sh in itertools.combinations(range(1, 9), k):
+                        cases.append((10, (1, 8), fstart, simend, set(sh)))
     n = 0
     for ncols, base, fstart, simend, shocks in cases:
         key = f"fords.shock_simulators._simulate_anticipated_shock_values[frame {fstart}..{simend} of base {base[0]}..{base[1]}, shocks at {sorted(shocks)}]"
